@@ -1,11 +1,1101 @@
-//! (stub) binding for this area — see DESIGN.md
-use crate::util::Args;
-use anyhow::Result;
+//! Binding of spec/Collection.tla (+ CollectionOps.tla) to ragc_common::CollectionV3,
+//! ragc_common::Archive, ragc_core::Decompressor and StreamingQueueCompressor (property C03).
+//!
+//! Nothing here decides the property: the harness *drives* the real code, *projects*
+//! (String <-> byte list, SegmentDesc <-> {g,id,rc,len}, stored parts -> byte lists) and, for
+//! REPLAY, *compares* the model's post-state with the real one.  Name-delta decoding, descriptor
+//! prediction, varints, batch/cursor arithmetic live in TLA+.
+//!
+//! sub-commands
+//!   replay-collnames  --in F          behaviours of MC_CollNames  (codec wrappers)
+//!   replay-colldesc   --in F          behaviours of MC_CollDesc   (codec wrappers)
+//!   replay-collection --in F --dir D  behaviours of MC_Collection (real Archive files)
+//!   trace-collcodec   --seed S --n N --out F [--big]      stateless codec events
+//!   trace-collection  --seed S --plan P --dir D --out F   life-cycle cases (wrap/file/dec/pipe)
+//!   bench-collection                  cost of one store_contig_batch (informational)
+use crate::util::{self, Args};
+use anyhow::{anyhow, Context, Result};
+use ragc_common::{Archive, CollectionV3};
+use ragc_core::{Decompressor, DecompressorConfig, StreamingQueueCompressor, StreamingQueueConfig};
+use rand::rngs::StdRng;
+use rand::seq::SliceRandom;
+use rand::Rng;
+use serde_json::{json, Value};
+use std::collections::{HashMap, HashSet};
+use std::io::{BufRead, Write};
+use std::panic::AssertUnwindSafe;
 
-/// Returns None when `cmd` is not one of this module's sub-commands.
 pub fn dispatch(cmd: &str, a: &Args) -> Option<Result<()>> {
-    let _ = a;
     match cmd {
+        "replay-collnames" => Some(replay_names(a)),
+        "replay-colldesc" => Some(replay_desc(a)),
+        "replay-collection" => Some(replay_collection(a)),
+        "trace-collcodec" => Some(trace_codec(a)),
+        "trace-collection" => Some(trace_collection(a)),
+        "bench-collection" => Some(bench(a)),
         _ => None,
     }
+}
+
+// ------------------------------------------------------------------------------------------
+// projections
+// ------------------------------------------------------------------------------------------
+#[derive(Clone, Debug, PartialEq)]
+struct Row {
+    g: u32,
+    id: u32,
+    rc: bool,
+    len: u32,
+}
+type Name = Vec<u8>;
+type Table = Vec<Vec<Vec<Row>>>; // sample -> contig -> rows
+
+fn jb(b: &[u8]) -> Value {
+    Value::Array(b.iter().map(|&x| json!(x)).collect())
+}
+fn vb(v: &Value) -> Name {
+    v.as_array().map(|a| a.iter().map(|x| x.as_u64().unwrap_or(0) as u8).collect()).unwrap_or_default()
+}
+fn jrow(r: &Row) -> Value {
+    json!({"g": r.g, "id": r.id, "rc": if r.rc {1} else {0}, "len": r.len})
+}
+fn vrow(v: &Value) -> Row {
+    Row { g: v["g"].as_u64().unwrap() as u32, id: v["id"].as_u64().unwrap() as u32, rc: v["rc"].as_u64().unwrap() != 0, len: v["len"].as_u64().unwrap() as u32 }
+}
+fn jrows(rs: &[Row]) -> Value {
+    Value::Array(rs.iter().map(jrow).collect())
+}
+fn vrows(v: &Value) -> Vec<Row> {
+    v.as_array().map(|a| a.iter().map(vrow).collect()).unwrap_or_default()
+}
+fn jlists(l: &[Vec<Name>]) -> Value {
+    Value::Array(l.iter().map(|s| Value::Array(s.iter().map(|n| jb(n)).collect())).collect())
+}
+fn jtable(t: &Table) -> Value {
+    Value::Array(t.iter().map(|s| Value::Array(s.iter().map(|c| jrows(c)).collect())).collect())
+}
+fn s(b: &[u8]) -> String {
+    // names are ASCII in the whole C03 domain; the projection is the identity on bytes
+    String::from_utf8(b.to_vec()).expect("harness generates ASCII names only")
+}
+/// (segment_size, k) with segment_size + k = pl
+fn split_pl(pl: u32) -> (u32, u32) {
+    let k = pl.min(21);
+    (pl - k, k)
+}
+/// the reader's / writer's whole catalogue as the JSON image of the TLA+ value `rcat`
+fn dump_cat(c: &CollectionV3) -> Value {
+    let mut out = vec![];
+    for name in c.get_samples_list(false) {
+        let d = c.get_sample_desc(&name).unwrap_or_default();
+        let contigs: Vec<Value> = d
+            .iter()
+            .map(|(cn, segs)| {
+                json!({"name": jb(cn.as_bytes()), "segs": Value::Array(segs.iter().map(|x| jrow(&Row{g: x.group_id, id: x.in_group_id, rc: x.is_rev_comp, len: x.raw_length})).collect())})
+            })
+            .collect();
+        out.push(json!({"name": jb(name.as_bytes()), "contigs": contigs}));
+    }
+    Value::Array(out)
+}
+
+/// `load` event: the reader's catalogue after the call as a difference to the one before it
+/// (indices are 1-based; TLC checks changed entries AND that all others are unchanged)
+fn load_event(b: usize, prev: &mut Value, now: Value) -> Value {
+    let (pa, na) = (prev.as_array().cloned().unwrap_or_default(), now.as_array().cloned().unwrap_or_default());
+    let changed: Vec<Value> = na
+        .iter()
+        .enumerate()
+        .filter(|(i, v)| pa.get(*i) != Some(*v))
+        .map(|(i, v)| json!({"i": i + 1, "sample": v}))
+        .collect();
+    let ev = json!({"ev": "load", "b": b, "n": na.len(), "changed": changed});
+    *prev = now;
+    ev
+}
+
+// ------------------------------------------------------------------------------------------
+// codec wrappers (cfg ragc_verif pass-through to the private serialisers)
+// ------------------------------------------------------------------------------------------
+fn sample_key(i: usize) -> String {
+    format!("s{}", i)
+}
+fn ser_names(lists: &[Vec<Name>]) -> Result<Vec<u8>> {
+    let mut c = CollectionV3::new();
+    for (i, l) in lists.iter().enumerate() {
+        for n in l {
+            if !c.register_sample_contig(&sample_key(i), &s(n))? {
+                return Err(anyhow!("duplicate contig name in harness input"));
+            }
+        }
+    }
+    if c.get_no_samples() != lists.len() {
+        return Err(anyhow!("sample without contigs cannot be registered"));
+    }
+    Ok(c.verif_serialize_contig_names(0, lists.len()))
+}
+fn de_names(buf: &[u8], nsamples: usize) -> Result<Vec<Vec<Name>>> {
+    let mut c = CollectionV3::new();
+    for i in 0..nsamples {
+        c.register_sample_contig(&sample_key(i), "x")?;
+    }
+    c.verif_deserialize_contig_names(buf, 0)?;
+    Ok((0..nsamples).map(|i| c.get_contig_list(&sample_key(i)).unwrap_or_default().into_iter().map(|x| x.into_bytes()).collect()).collect())
+}
+fn coll_with_shape(shape: &[usize], pl: u32) -> Result<CollectionV3> {
+    let mut c = CollectionV3::new();
+    let (seg, k) = split_pl(pl);
+    c.set_config(seg, k, None);
+    for (i, &nc) in shape.iter().enumerate() {
+        for j in 0..nc {
+            c.register_sample_contig(&sample_key(i), &format!("c{}", j))?;
+        }
+    }
+    Ok(c)
+}
+fn ser_details(t: &Table, pl: u32) -> Result<[Vec<u8>; 5]> {
+    let shape: Vec<usize> = t.iter().map(|x| x.len()).collect();
+    if shape.iter().any(|&n| n == 0) {
+        return Err(anyhow!("sample without contigs cannot be registered"));
+    }
+    let mut c = coll_with_shape(&shape, pl)?;
+    for (i, sm) in t.iter().enumerate() {
+        for (j, ct) in sm.iter().enumerate() {
+            for (p, r) in ct.iter().enumerate() {
+                c.add_segment_placed(&sample_key(i), &format!("c{}", j), p, r.g, r.id, r.rc, r.len)?;
+            }
+        }
+    }
+    Ok(c.verif_serialize_contig_details(0, t.len()))
+}
+fn de_details(streams: &[Vec<u8>; 5], shape: &[usize], pl: u32) -> Result<Table> {
+    let mut c = coll_with_shape(shape, pl)?;
+    c.verif_deserialize_contig_details(streams, 0)?;
+    Ok((0..shape.len())
+        .map(|i| {
+            c.get_sample_desc(&sample_key(i))
+                .unwrap_or_default()
+                .into_iter()
+                .map(|(_, segs)| segs.iter().map(|x| Row { g: x.group_id, id: x.in_group_id, rc: x.is_rev_comp, len: x.raw_length }).collect())
+                .collect()
+        })
+        .collect())
+}
+fn ser_samples(names: &[Name]) -> Result<Vec<u8>> {
+    let mut c = CollectionV3::new();
+    for n in names {
+        c.register_sample_contig(&s(n), "x")?;
+    }
+    Ok(c.verif_serialize_sample_names())
+}
+fn de_samples(buf: &[u8]) -> Result<Vec<Name>> {
+    let mut c = CollectionV3::new();
+    c.verif_deserialize_sample_names(buf)?;
+    Ok(c.get_samples_list(false).into_iter().map(|x| x.into_bytes()).collect())
+}
+fn streams5(v: &Value) -> [Vec<u8>; 5] {
+    let a = v.as_array().unwrap();
+    [vb(&a[0]), vb(&a[1]), vb(&a[2]), vb(&a[3]), vb(&a[4])]
+}
+fn jstreams(st: &[Vec<u8>; 5]) -> Value {
+    Value::Array(st.iter().map(|x| jb(x)).collect())
+}
+fn flat<T, E: std::fmt::Display>(r: std::result::Result<Result<T, E>, String>) -> std::result::Result<T, String> {
+    match r {
+        Ok(Ok(v)) => Ok(v),
+        Ok(Err(e)) => Err(format!("error: {:#}", e)),
+        Err(p) => Err(format!("panic: {}", p)),
+    }
+}
+
+// ------------------------------------------------------------------------------------------
+// REPLAY of MC_CollNames / MC_CollDesc behaviours
+// ------------------------------------------------------------------------------------------
+/// For every behaviour {names, enc, buf}: the real serialiser + the real deserialiser must give
+/// back the list; the real deserialiser must read the model's canonical bytes; a difference
+/// between the real and the model's bytes is NOT a verdict here: such cases are returned as
+/// `deviations` and decided by TLC (spec decoder on the real bytes).
+fn replay_names(a: &Args) -> Result<()> {
+    util::install_panic_hook();
+    let f = std::fs::File::open(a.get("in")?)?;
+    let (mut n, mut steps, mut equal) = (0u64, 0u64, 0u64);
+    let mut fails: Vec<Value> = vec![];
+    let mut devs: Vec<Value> = vec![];
+    for line in std::io::BufReader::new(f).lines() {
+        let line = line?;
+        if line.trim().is_empty() {
+            continue;
+        }
+        let b: Value = serde_json::from_str(&line)?;
+        let names: Vec<Name> = b["names"].as_array().unwrap().iter().map(vb).collect();
+        let mbuf = vb(&b["buf"]);
+        n += 1;
+        steps += names.len() as u64;
+        let lists = vec![names.clone()];
+        let real = flat(util::catch(AssertUnwindSafe(|| ser_names(&lists))));
+        let mut bad: Option<Value> = None;
+        match &real {
+            Err(e) => bad = Some(json!({"step": "serialize", "detail": e})),
+            Ok(rb) => {
+                match flat(util::catch(AssertUnwindSafe(|| de_names(rb, 1)))) {
+                    Ok(d) if d == lists => {}
+                    Ok(d) => bad = Some(json!({"step": "roundtrip", "real_buf": jb(rb), "real_dec": jlists(&d)})),
+                    Err(e) => bad = Some(json!({"step": "roundtrip", "real_buf": jb(rb), "detail": e})),
+                }
+                if *rb == mbuf {
+                    equal += 1;
+                } else if devs.len() < 200 {
+                    devs.push(json!({"ev": "names", "lists": jlists(&lists), "buf": jb(rb), "dec": jlists(&lists), "model_buf": jb(&mbuf)}));
+                }
+            }
+        }
+        if bad.is_none() {
+            match flat(util::catch(AssertUnwindSafe(|| de_names(&mbuf, 1)))) {
+                Ok(d) if d == lists => {}
+                Ok(d) => bad = Some(json!({"step": "decode_model_bytes", "real_dec": jlists(&d)})),
+                Err(e) => bad = Some(json!({"step": "decode_model_bytes", "detail": e})),
+            }
+        }
+        if let Some(mut v) = bad {
+            v["behaviour"] = b.clone();
+            fails.push(v);
+            if fails.len() >= 20 {
+                break;
+            }
+        }
+    }
+    println!("{}", json!({"behaviours": n, "steps": steps, "bytes_equal": equal, "fails": fails, "deviations": devs}));
+    Ok(())
+}
+
+fn table_from_shape(rows: &[Row], shape: &[u64]) -> Table {
+    // shape = Counts(table): #samples, then per sample #contigs followed by its per-contig #rows
+    let mut t: Table = vec![];
+    let mut q = 1usize;
+    let mut p = 0usize;
+    for _ in 0..shape[0] {
+        let nc = shape[q] as usize;
+        q += 1;
+        let mut sm = vec![];
+        for _ in 0..nc {
+            let nr = shape[q] as usize;
+            q += 1;
+            sm.push(rows[p..p + nr].to_vec());
+            p += nr;
+        }
+        t.push(sm);
+    }
+    t
+}
+
+fn replay_desc(a: &Args) -> Result<()> {
+    util::install_panic_hook();
+    let f = std::fs::File::open(a.get("in")?)?;
+    let (mut n, mut steps, mut equal) = (0u64, 0u64, 0u64);
+    let mut fails: Vec<Value> = vec![];
+    let mut devs: Vec<Value> = vec![];
+    for line in std::io::BufReader::new(f).lines() {
+        let line = line?;
+        if line.trim().is_empty() {
+            continue;
+        }
+        let b: Value = serde_json::from_str(&line)?;
+        let pl = b["pl"].as_u64().unwrap() as u32;
+        let rows = vrows(&b["rows"]);
+        let shape: Vec<u64> = b["shape"].as_array().unwrap().iter().map(|x| x.as_u64().unwrap()).collect();
+        let t = table_from_shape(&rows, &shape);
+        let cshape: Vec<usize> = t.iter().map(|x| x.len()).collect();
+        let mst = streams5(&b["streams"]);
+        n += 1;
+        steps += rows.len() as u64;
+        let real = flat(util::catch(AssertUnwindSafe(|| ser_details(&t, pl))));
+        let mut bad: Option<Value> = None;
+        match &real {
+            Err(e) => bad = Some(json!({"step": "serialize", "detail": e})),
+            Ok(rs) => {
+                match flat(util::catch(AssertUnwindSafe(|| de_details(rs, &cshape, pl)))) {
+                    Ok(d) if d == t => {}
+                    Ok(d) => bad = Some(json!({"step": "roundtrip", "real_streams": jstreams(rs), "real_dec": jtable(&d)})),
+                    Err(e) => bad = Some(json!({"step": "roundtrip", "real_streams": jstreams(rs), "detail": e})),
+                }
+                if *rs == mst {
+                    equal += 1;
+                } else if devs.len() < 200 {
+                    devs.push(json!({"ev": "details", "pl": pl, "table": jtable(&t), "streams": jstreams(rs), "dec": jtable(&t), "model_streams": jstreams(&mst)}));
+                }
+            }
+        }
+        if bad.is_none() {
+            match flat(util::catch(AssertUnwindSafe(|| de_details(&mst, &cshape, pl)))) {
+                Ok(d) if d == t => {}
+                Ok(d) => bad = Some(json!({"step": "decode_model_bytes", "real_dec": jtable(&d)})),
+                Err(e) => bad = Some(json!({"step": "decode_model_bytes", "detail": e})),
+            }
+        }
+        if let Some(mut v) = bad {
+            v["behaviour"] = b.clone();
+            fails.push(v);
+            if fails.len() >= 20 {
+                break;
+            }
+        }
+    }
+    println!("{}", json!({"behaviours": n, "steps": steps, "bytes_equal": equal, "fails": fails, "deviations": devs}));
+    Ok(())
+}
+
+// ------------------------------------------------------------------------------------------
+// reading the stored parts back (projection: container + ZSTD are the identity of the model)
+// ------------------------------------------------------------------------------------------
+fn hv(b: &[u8], p: &mut usize) -> Result<usize> {
+    // prefix varint of the part header (10 small integers); independent of ragc's decoder
+    let f = *b.get(*p).ok_or_else(|| anyhow!("short details part"))? as usize;
+    let k = if f < 128 { 1 } else if f < 192 { 2 } else if f < 224 { 3 } else if f < 240 { 4 } else { 5 };
+    if *p + k > b.len() {
+        return Err(anyhow!("short details part"));
+    }
+    let x = &b[*p..*p + k];
+    *p += k;
+    Ok(match k {
+        1 => f,
+        2 => ((f - 128) << 8) + x[1] as usize + 128,
+        3 => ((f - 192) << 16) + ((x[1] as usize) << 8) + x[2] as usize + 16512,
+        4 => ((f - 224) << 24) + ((x[1] as usize) << 16) + ((x[2] as usize) << 8) + x[3] as usize + 2113664,
+        _ => ((x[1] as usize) << 24) + ((x[2] as usize) << 16) + ((x[3] as usize) << 8) + x[4] as usize + 270549120,
+    })
+}
+struct Stored {
+    samples: Vec<u8>,
+    names: Vec<Vec<u8>>,
+    det: Vec<[Vec<u8>; 5]>,
+}
+fn read_stored(path: &str) -> Result<Stored> {
+    let mut ar = Archive::new_reader();
+    ar.open(path)?;
+    let sid = ar.get_stream_id("collection-samples").ok_or_else(|| anyhow!("no collection-samples"))?;
+    let cid = ar.get_stream_id("collection-contigs").ok_or_else(|| anyhow!("no collection-contigs"))?;
+    let did = ar.get_stream_id("collection-details").ok_or_else(|| anyhow!("no collection-details"))?;
+    let (p, raw) = ar.get_part_by_id(sid, 0)?;
+    let samples = zstd::decode_all(&p[..])?;
+    if samples.len() as u64 != raw {
+        return Err(anyhow!("collection-samples raw size mismatch"));
+    }
+    let mut names = vec![];
+    let mut det = vec![];
+    if ar.get_num_parts(cid) != ar.get_num_parts(did) {
+        return Err(anyhow!("contig / details part counts differ"));
+    }
+    for b in 0..ar.get_num_parts(cid) {
+        let (p, raw) = ar.get_part_by_id(cid, b)?;
+        let n = zstd::decode_all(&p[..])?;
+        if n.len() as u64 != raw {
+            return Err(anyhow!("collection-contigs raw size mismatch"));
+        }
+        names.push(n);
+        let (p, _) = ar.get_part_by_id(did, b)?;
+        let mut pos = 0usize;
+        let mut sizes = [(0usize, 0usize); 5];
+        for i in 0..5 {
+            sizes[i].0 = hv(&p, &mut pos)?;
+            sizes[i].1 = hv(&p, &mut pos)?;
+        }
+        let mut st: [Vec<u8>; 5] = Default::default();
+        for i in 0..5 {
+            if pos + sizes[i].1 > p.len() {
+                return Err(anyhow!("short details part"));
+            }
+            st[i] = zstd::decode_all(&p[pos..pos + sizes[i].1])?;
+            pos += sizes[i].1;
+            if st[i].len() != sizes[i].0 {
+                return Err(anyhow!("details stream raw size mismatch"));
+            }
+        }
+        det.push(st);
+    }
+    Ok(Stored { samples, names, det })
+}
+
+// ------------------------------------------------------------------------------------------
+// life-cycle cases
+// ------------------------------------------------------------------------------------------
+#[derive(Clone)]
+struct Case {
+    id: String,
+    mode: String, // wrap | file | dec | pipe
+    pack: usize,
+    pl: u32,
+    regs: Vec<(Name, Name)>,            // register calls in order (duplicates allowed)
+    rows: HashMap<(Name, Name), Vec<Row>>, // descriptor rows per (sample, contig)
+    passes: usize,
+    seed: u64,
+}
+
+fn ev_start(c: &Case) -> Value {
+    json!({"ev": "start", "case": c.id, "mode": c.mode, "pack": c.pack, "pl": c.pl})
+}
+
+/// distinct (sample, contig) pairs in first-registration order -- only used to know which
+/// contigs to place and which samples to query; the expected catalogue is computed by TLC.
+fn distinct_pairs(c: &Case) -> Vec<(Name, Name)> {
+    let mut seen = HashSet::new();
+    let mut v = vec![];
+    for p in &c.regs {
+        if seen.insert(p.clone()) {
+            v.push(p.clone());
+        }
+    }
+    v
+}
+
+/// writer part on a real CollectionV3: register / place / wlist events
+fn drive_writer(c: &Case, coll: &mut CollectionV3, rng: &mut StdRng, out: &mut Vec<Value>) -> Result<()> {
+    let (seg, k) = split_pl(c.pl);
+    coll.set_config(seg, k, None);
+    for (sn, cn) in &c.regs {
+        let new = coll.register_sample_contig(&s(sn), &s(cn))?;
+        out.push(json!({"ev": "register", "s": jb(sn), "c": jb(cn), "new": new,
+            "nsamples": coll.get_no_samples(), "ncontigs": coll.get_no_contigs(&s(sn)).unwrap_or(0)}));
+    }
+    let mut pairs = distinct_pairs(c);
+    pairs.shuffle(rng);
+    for (sn, cn) in pairs {
+        let rows = c.rows.get(&(sn.clone(), cn.clone())).cloned().unwrap_or_default();
+        let mut order: Vec<usize> = (0..rows.len()).collect();
+        if rng.gen_bool(0.5) {
+            order.shuffle(rng);
+        }
+        for &p in &order {
+            let r = &rows[p];
+            coll.add_segment_placed(&s(&sn), &s(&cn), p, r.g, r.id, r.rc, r.len)?;
+        }
+        out.push(json!({"ev": "place", "s": jb(&sn), "c": jb(&cn), "rows": jrows(&rows)}));
+    }
+    let samples = coll.get_samples_list(false);
+    let contigs: Vec<Value> = samples
+        .iter()
+        .map(|n| Value::Array(coll.get_contig_list(n).unwrap_or_default().iter().map(|x| jb(x.as_bytes())).collect()))
+        .collect();
+    out.push(json!({"ev": "wlist", "samples": Value::Array(samples.iter().map(|x| jb(x.as_bytes())).collect()), "contigs": contigs}));
+    Ok(())
+}
+
+fn push_store_events(st: &Stored, rows_known: bool, out: &mut Vec<Value>) {
+    out.push(json!({"ev": "store_names", "bytes": jb(&st.samples)}));
+    for b in 0..st.names.len() {
+        out.push(json!({"ev": "store_batch", "b": b, "rows_known": rows_known, "names": jb(&st.names[b]), "det": jstreams(&st.det[b])}));
+    }
+}
+
+/// finalize()'s metadata part on a real Archive file (agc_compressor.rs:2040-2093)
+fn write_file(coll: &mut CollectionV3, path: &str, pack: usize, params: Option<(u32, u32)>) -> Result<()> {
+    let mut ar = Archive::new_writer();
+    ar.open(path)?;
+    if let Some((k, seg)) = params {
+        let sid = ar.register_stream("params");
+        let mut p = vec![];
+        for v in [k, 20u32, 50u32, seg] {
+            p.extend_from_slice(&v.to_le_bytes());
+        }
+        ar.add_part_buffered(sid, p, 0);
+    }
+    coll.prepare_for_compression(&mut ar)?;
+    coll.store_batch_sample_names(&mut ar)?;
+    let n = coll.get_no_samples();
+    let mut i = 0;
+    while i < n {
+        let e = (i + pack).min(n);
+        coll.store_contig_batch(&mut ar, i, e)?;
+        i = e;
+    }
+    ar.flush_buffers()?;
+    ar.close()?;
+    Ok(())
+}
+
+fn names_json(v: &[String]) -> Value {
+    Value::Array(v.iter().map(|x| jb(x.as_bytes())).collect())
+}
+
+/// reader part through Collection::load_contig_batch on a real Archive (real cursor)
+fn drive_reader_file(c: &Case, path: &str, out: &mut Vec<Value>) -> Result<()> {
+    let mut ar = Archive::new_reader();
+    ar.open(path)?;
+    let mut coll = CollectionV3::new();
+    let (seg, k) = split_pl(c.pl);
+    coll.set_config(seg, k, None);
+    coll.prepare_for_decompression(&ar)?;
+    coll.load_batch_sample_names(&mut ar)?;
+    let mut prev = dump_cat(&coll);
+    out.push(json!({"ev": "open", "samples": names_json(&coll.get_samples_list(false)), "cat": prev}));
+    let nb = coll.get_no_contig_batches(&ar)?;
+    for _ in 0..c.passes {
+        for b in 0..nb {
+            coll.load_contig_batch(&mut ar, b)?;
+            out.push(load_event(b, &mut prev, dump_cat(&coll)));
+        }
+    }
+    Ok(())
+}
+
+/// reader part through the public Decompressor API (lazy loading inside)
+fn drive_reader_dec(path: &str, rng: &mut StdRng, out: &mut Vec<Value>) -> Result<()> {
+    let mut d = Decompressor::open(path, DecompressorConfig { verbosity: 0 })?;
+    let samples = d.list_samples();
+    out.push(json!({"ev": "open", "samples": names_json(&samples)}));
+    let mut order: Vec<usize> = (0..samples.len()).collect();
+    order.shuffle(rng);
+    let all_at = if order.is_empty() { 0 } else { rng.gen_range(0..order.len()) };
+    for (q, &i) in order.iter().enumerate() {
+        if q == all_at {
+            let segs = d.get_all_segments()?;
+            let res: Vec<Value> = segs
+                .iter()
+                .map(|(sn, cn, sg)| {
+                    json!({"s": jb(sn.as_bytes()), "c": jb(cn.as_bytes()),
+                        "segs": Value::Array(sg.iter().map(|x| jrow(&Row{g: x.group_id, id: x.in_group_id, rc: x.is_rev_comp, len: x.raw_length})).collect())})
+                })
+                .collect();
+            out.push(json!({"ev": "all_segments", "result": res}));
+        }
+        let r = d.list_contigs(&samples[i])?;
+        out.push(json!({"ev": "list_contigs", "s": jb(samples[i].as_bytes()), "result": names_json(&r)}));
+    }
+    out.push(json!({"ev": "list_samples", "result": names_json(&d.list_samples())}));
+    Ok(())
+}
+
+/// wrapper-level life cycle (no ZSTD, no file): the batch cursor is the harness's (Pack * b)
+fn drive_wrap(c: &Case, coll: &mut CollectionV3, out: &mut Vec<Value>) -> Result<()> {
+    let n = coll.get_no_samples();
+    let mut st = Stored { samples: coll.verif_serialize_sample_names(), names: vec![], det: vec![] };
+    let mut i = 0;
+    while i < n {
+        let e = (i + c.pack).min(n);
+        st.names.push(coll.verif_serialize_contig_names(i, e));
+        st.det.push(coll.verif_serialize_contig_details(i, e));
+        i = e;
+    }
+    push_store_events(&st, true, out);
+    let mut rd = CollectionV3::new();
+    let (seg, k) = split_pl(c.pl);
+    rd.set_config(seg, k, None);
+    rd.verif_deserialize_sample_names(&st.samples)?;
+    let mut prev = dump_cat(&rd);
+    out.push(json!({"ev": "open", "samples": names_json(&rd.get_samples_list(false)), "cat": prev}));
+    for _ in 0..c.passes {
+        for b in 0..st.names.len() {
+            rd.verif_deserialize_contig_names(&st.names[b], c.pack * b)?;
+            rd.verif_deserialize_contig_details(&st.det[b], c.pack * b)?;
+            out.push(load_event(b, &mut prev, dump_cat(&rd)));
+        }
+    }
+    Ok(())
+}
+
+/// full pipeline: StreamingQueueCompressor::push / finalize, then the Decompressor
+fn drive_pipe(c: &Case, path: &str, rng: &mut StdRng, out: &mut Vec<Value>) -> Result<()> {
+    let (seg, k) = split_pl(c.pl);
+    let cfg = StreamingQueueConfig {
+        k: k as usize,
+        segment_size: seg as usize,
+        min_match_len: 8,
+        num_threads: 2,
+        verbosity: 0,
+        queue_capacity: 64 << 20,
+        ..StreamingQueueConfig::default()
+    };
+    let mut comp = StreamingQueueCompressor::new(path, cfg)?;
+    // a common ancestor so that later samples delta-encode against the first
+    let base: Vec<u8> = (0..(seg as usize * 3 + 40)).map(|_| rng.gen_range(0..4u8)).collect();
+    for (sn, cn) in &c.regs {
+        let mut d = base.clone();
+        let l = rng.gen_range((k as usize + 2)..=d.len());
+        d.truncate(l);
+        for _ in 0..rng.gen_range(0..4) {
+            let p = rng.gen_range(0..d.len());
+            d[p] = rng.gen_range(0..4u8);
+        }
+        comp.push(s(sn), s(cn), d)?;
+        out.push(json!({"ev": "push", "s": jb(sn), "c": jb(cn)}));
+    }
+    comp.finalize()?;
+    let st = read_stored(path)?;
+    push_store_events(&st, false, out);
+    drive_reader_dec(path, rng, out)
+}
+
+fn run_case(c: &Case, dir: &str, out: &mut Vec<Value>) {
+    out.push(ev_start(c));
+    let path = format!("{}/{}_{}.agc", dir, c.id, std::process::id());
+    let mut rng = util::rng(c.seed);
+    let r = util::catch(AssertUnwindSafe(|| -> Result<()> {
+        if c.mode == "pipe" {
+            return drive_pipe(c, &path, &mut rng, out);
+        }
+        let mut coll = CollectionV3::new();
+        drive_writer(c, &mut coll, &mut rng, out)?;
+        match c.mode.as_str() {
+            "wrap" => drive_wrap(c, &mut coll, out),
+            "file" => {
+                write_file(&mut coll, &path, c.pack, None)?;
+                push_store_events(&read_stored(&path)?, true, out);
+                drive_reader_file(c, &path, out)
+            }
+            "dec" => {
+                let (seg, k) = split_pl(c.pl);
+                write_file(&mut coll, &path, c.pack, Some((k, seg)))?;
+                push_store_events(&read_stored(&path)?, true, out);
+                drive_reader_dec(&path, &mut rng, out)
+            }
+            m => Err(anyhow!("unknown mode {}", m)),
+        }
+    }));
+    match flat(r) {
+        Ok(()) => {}
+        // an error / panic of the code under test is data: no specification step matches it
+        Err(e) => out.push(json!({"ev": "failure", "detail": e})),
+    }
+    let _ = std::fs::remove_file(&path);
+}
+
+// ------------------------------------------------------------------------------------------
+// generators (seeded; C03 domain: printable ASCII + tab, no NUL, no byte >= 128; names
+// distinct within a sample; ids / lengths / group ids < 2^31, group ids <= 100000)
+// ------------------------------------------------------------------------------------------
+fn rand_char(rng: &mut StdRng) -> u8 {
+    if rng.gen_bool(0.02) {
+        9
+    } else {
+        rng.gen_range(33..127u8)
+    }
+}
+fn rand_field(rng: &mut StdRng, len: usize) -> Name {
+    match rng.gen_range(0..10) {
+        0 => vec![rand_char(rng); len],                                   // one long run
+        1 => (0..len).map(|i| if i % 2 == 0 { b'A' } else { b'C' }).collect(),
+        2 => format!("{}", rng.gen_range(0..10u64.pow((len.min(18)) as u32).max(1))).into_bytes(),
+        _ => (0..len).map(|_| rand_char(rng)).collect(),
+    }
+}
+const RUNLENS: [usize; 14] = [1, 2, 3, 7, 50, 99, 100, 101, 127, 128, 199, 200, 201, 300];
+fn rand_len(rng: &mut StdRng) -> usize {
+    match rng.gen_range(0..10) {
+        0 => *RUNLENS.choose(rng).unwrap(),
+        1 => rng.gen_range(100..330),
+        2 => 0,
+        _ => rng.gen_range(1..14),
+    }
+}
+/// a new name derived from `prev`: keeps / alters / resizes / empties fields, sometimes changes the
+/// field count -- every branch of the delta codec
+fn mutate_name(rng: &mut StdRng, prev: &[u8]) -> Name {
+    let mut fields: Vec<Name> = prev.split(|&b| b == b' ').map(|x| x.to_vec()).collect();
+    for f in fields.iter_mut() {
+        match rng.gen_range(0..12) {
+            0..=4 => {}                                          // same field -> marker
+            5..=7 if !f.is_empty() => {
+                // same length, a few positions changed (runs in between; around 100 / 200 too)
+                for _ in 0..rng.gen_range(1..4) {
+                    let p = match rng.gen_range(0..4) {
+                        0 => 0,
+                        1 => f.len() - 1,
+                        2 => [99usize, 100, 101, 199, 200, 201][rng.gen_range(0..6)].min(f.len() - 1),
+                        _ => rng.gen_range(0..f.len()),
+                    };
+                    f[p] = rand_char(rng);
+                }
+            }
+            8 => *f = vec![],                                     // empty field (double space)
+            9 => {
+                let l = f.len() + 1;
+                *f = rand_field(rng, l);                          // length +1
+            }
+            10 => *f = rand_field(rng, f.len()),                  // same length, unrelated
+            _ => {
+                let l = rand_len(rng);
+                *f = rand_field(rng, l);
+            }
+        }
+    }
+    match rng.gen_range(0..12) {
+        0 => {
+            let l = rand_len(rng);
+            fields.push(rand_field(rng, l));
+        }
+        1 if fields.len() > 1 => {
+            fields.pop();
+        }
+        2 => fields.insert(0, vec![]),                            // leading space
+        _ => {}
+    }
+    fields.join(&b' ')
+}
+fn fresh_name(rng: &mut StdRng) -> Name {
+    match rng.gen_range(0..6) {
+        0 => format!("chr{} LN:{} AS:asm{} description text", rng.gen_range(1..23), rng.gen_range(1000..99999999u64), rng.gen_range(1..4)).into_bytes(),
+        1 => format!("S{}#{}#chr{}", rng.gen_range(1..200), rng.gen_range(1..3), rng.gen_range(1..23)).into_bytes(),
+        2 => {
+            let l = rand_len(rng).max(1);
+            rand_field(rng, l)
+        }
+        _ => {
+            let nf = rng.gen_range(1..6);
+            let fs: Vec<Name> = (0..nf).map(|_| { let l = rand_len(rng); rand_field(rng, l) }).collect();
+            fs.join(&b' ')
+        }
+    }
+}
+/// n distinct non-empty names of one sample
+fn gen_names(rng: &mut StdRng, n: usize) -> Vec<Name> {
+    let mut v: Vec<Name> = vec![];
+    let mut seen: HashSet<Name> = HashSet::new();
+    let mut guard = 0;
+    while v.len() < n {
+        guard += 1;
+        let cand = if v.is_empty() || rng.gen_bool(0.15) || guard > 50 * n { fresh_name(rng) } else { mutate_name(rng, v.last().unwrap()) };
+        if cand.is_empty() || cand.len() > 2000 || seen.contains(&cand) {
+            continue;
+        }
+        seen.insert(cand.clone());
+        v.push(cand);
+    }
+    v
+}
+fn gen_sample_names(rng: &mut StdRng, n: usize) -> Vec<Name> {
+    let mut v = vec![];
+    let mut seen = HashSet::new();
+    let style = rng.gen_range(0..3);
+    while v.len() < n {
+        let c: Name = match style {
+            0 => format!("sample_{:03}", v.len() + rng.gen_range(0..3) * 1000).into_bytes(),
+            1 => format!("HG{:05}#{}", rng.gen_range(0..99999), rng.gen_range(1..3)).into_bytes(),
+            _ => {
+                let l = rng.gen_range(1..40);
+                let mut f: Name = (0..l).map(|_| rand_char(rng)).collect();
+                if rng.gen_bool(0.3) {
+                    let p = rng.gen_range(0..f.len());
+                    f[p] = b' ';                                    // sample names may contain spaces
+                }
+                f
+            }
+        };
+        if seen.insert(c.clone()) {
+            v.push(c);
+        }
+    }
+    v
+}
+struct RowGen {
+    pl: u32,
+    groups: Vec<u32>,
+    maxid: HashMap<u32, u32>,
+}
+impl RowGen {
+    fn new(rng: &mut StdRng, pl: u32) -> Self {
+        let ng = rng.gen_range(1..12);
+        let sparse = rng.gen_bool(0.3);
+        let groups = (0..ng).map(|i| if sparse { rng.gen_range(0..100_000u32) } else { i as u32 + if rng.gen_bool(0.5) { 16 } else { 0 } }).collect();
+        RowGen { pl, groups, maxid: HashMap::new() }
+    }
+    fn row(&mut self, rng: &mut StdRng) -> Row {
+        let g = *self.groups.choose(rng).unwrap();
+        let m = self.maxid.get(&g).copied();
+        let id = match (m, rng.gen_range(0..12)) {
+            (None, 0..=6) => 0,
+            (None, 7..=8) => 1,
+            (None, _) => rng.gen_range(0..50),
+            (Some(m), 0..=5) => m + 1,                               // the common case
+            (Some(m), 6) => m,                                       // repeats
+            (Some(m), 7) => rng.gen_range(0..=m),                    // goes back
+            (Some(_), 8) => 0,                                       // reference again
+            (Some(m), 9) => m + rng.gen_range(2..40),                // jumps
+            (Some(m), 10) => (m as u64 * 2 + rng.gen_range(0..3)) as u32,
+            (Some(_), _) => rng.gen_range(0..3_000_000),
+        };
+        let id = id.min(400_000_000);
+        let e = self.maxid.entry(g).or_insert(0);
+        if id > *e {
+            *e = id;
+        }
+        let pl = self.pl as i64;
+        let len = match rng.gen_range(0..14) {
+            0..=4 => pl + rng.gen_range(-30..30),
+            5 => pl,
+            6 => 2 * pl + rng.gen_range(-2..3),
+            7 => rng.gen_range(0..3),
+            8 => rng.gen_range(0..(pl.max(1))),
+            9 => pl * rng.gen_range(2..50) + rng.gen_range(0..9),
+            10 => rng.gen_range(0..400_000_000),
+            _ => pl + rng.gen_range(-1000..1000),
+        }
+        .clamp(0, 400_000_000) as u32;
+        Row { g, id, rc: rng.gen_bool(0.4), len }
+    }
+}
+fn rand_pl(rng: &mut StdRng) -> u32 {
+    *[0u32, 1, 10, 121, 1021, 60031, 60031, 10031].choose(rng).unwrap()
+}
+
+/// one catalogue: ns samples, each 1..maxc contigs, registered in an order that interleaves
+/// samples now and then and repeats some registrations
+fn gen_case(rng: &mut StdRng, id: &str, mode: &str, pack: usize, ns: usize, maxc: usize, maxrows: usize) -> Case {
+    let pl = if mode == "pipe" { [31u32, 45, 60][rng.gen_range(0..3)] } else { rand_pl(rng) };
+    let snames = gen_sample_names(rng, ns);
+    let mut regs: Vec<(Name, Name)> = vec![];
+    let mut rows = HashMap::new();
+    let mut rg = RowGen::new(rng, pl);
+    let mut pending: Vec<(Name, Name)> = vec![]; // contigs held back and registered later (interleaving)
+    for sn in &snames {
+        let nc = if rng.gen_bool(0.1) { maxc } else { rng.gen_range(1..=maxc.min(4).max(1)) };
+        let names = gen_names(rng, nc);
+        for (j, cn) in names.iter().enumerate() {
+            if mode != "pipe" {
+                let nr = match rng.gen_range(0..10) {
+                    0 => 0,
+                    1 => maxrows,
+                    _ => rng.gen_range(1..=maxrows.min(6).max(1)),
+                };
+                rows.insert((sn.clone(), cn.clone()), (0..nr).map(|_| rg.row(rng)).collect::<Vec<Row>>());
+            }
+            if j > 0 && mode != "pipe" && rng.gen_bool(0.05) {
+                pending.push((sn.clone(), cn.clone()));
+            } else {
+                regs.push((sn.clone(), cn.clone()));
+                if mode != "pipe" && rng.gen_bool(0.05) {
+                    regs.push((sn.clone(), cn.clone()));          // registered twice
+                }
+            }
+        }
+        if !pending.is_empty() && rng.gen_bool(0.5) {
+            regs.append(&mut pending);
+        }
+    }
+    regs.append(&mut pending);
+    Case { id: id.to_string(), mode: mode.to_string(), pack, pl, regs, rows, passes: 2, seed: rng.gen() }
+}
+
+/// plan: comma-separated  mode:pack:nsamples:maxcontigs:maxrows
+fn trace_collection(a: &Args) -> Result<()> {
+    util::install_panic_hook();
+    let seed: u64 = a.num("seed", 1u64);
+    let dir = a.get("dir")?.to_string();
+    std::fs::create_dir_all(&dir)?;
+    let mut out = std::io::BufWriter::new(std::fs::File::create(a.get("out")?)?);
+    let tag = a.opt("tag").unwrap_or("c").to_string();
+    for (i, item) in a.get("plan")?.split(',').enumerate() {
+        let p: Vec<&str> = item.split(':').collect();
+        if p.len() != 5 {
+            return Err(anyhow!("bad plan item {}", item));
+        }
+        let mut rng = util::rng(seed.wrapping_mul(0x9E3779B97F4A7C15).wrapping_add(i as u64 * 7919 + 13));
+        let c = gen_case(&mut rng, &format!("{}{}_{}_{}", tag, i, p[0], p[2]), p[0], p[1].parse()?, p[2].parse()?, p[3].parse()?, p[4].parse()?);
+        let mut evs = vec![];
+        run_case(&c, &dir, &mut evs);
+        for e in evs {
+            writeln!(out, "{}", e)?;
+        }
+    }
+    out.flush()?;
+    Ok(())
+}
+
+/// stateless codec events: random / adversarial name lists, descriptor tables, sample lists
+fn trace_codec(a: &Args) -> Result<()> {
+    util::install_panic_hook();
+    let seed: u64 = a.num("seed", 1u64);
+    let n: usize = a.num("n", 50usize);
+    let maxn: usize = a.num("maxnames", 12usize);
+    let maxr: usize = a.num("maxrows", 60usize);
+    let mut rng = util::rng(seed ^ 0xC03C03);
+    let mut out = std::io::BufWriter::new(std::fs::File::create(a.get("out")?)?);
+    writeln!(out, "{}", json!({"ev": "start", "case": "codec", "mode": "codec", "pack": a.num("pack", 50usize), "pl": 0}))?;
+    for i in 0..n {
+        // names: 1..3 samples
+        let ns = rng.gen_range(1..4);
+        let lists: Vec<Vec<Name>> = (0..ns).map(|_| { let k = rng.gen_range(1..=maxn); gen_names(&mut rng, k) }).collect();
+        let ev = match flat(util::catch(AssertUnwindSafe(|| ser_names(&lists)))) {
+            Ok(buf) => match flat(util::catch(AssertUnwindSafe(|| de_names(&buf, ns)))) {
+                Ok(d) => json!({"ev": "names", "i": i, "lists": jlists(&lists), "buf": jb(&buf), "dec": jlists(&d)}),
+                Err(e) => json!({"ev": "names", "i": i, "lists": jlists(&lists), "buf": jb(&buf), "dec": [], "failure": e}),
+            },
+            Err(e) => json!({"ev": "failure", "what": "serialize_contig_names", "lists": jlists(&lists), "detail": e}),
+        };
+        writeln!(out, "{}", ev)?;
+        // details: 1..3 samples x 1..3 contigs
+        let pl = rand_pl(&mut rng);
+        let mut rg = RowGen::new(&mut rng, pl);
+        let t: Table = (0..rng.gen_range(1..4))
+            .map(|_| (0..rng.gen_range(1..4)).map(|_| { let k = if rng.gen_bool(0.1) { 0 } else { rng.gen_range(1..=maxr) }; (0..k).map(|_| rg.row(&mut rng)).collect() }).collect())
+            .collect();
+        let shape: Vec<usize> = t.iter().map(|x| x.len()).collect();
+        let ev = match flat(util::catch(AssertUnwindSafe(|| ser_details(&t, pl)))) {
+            Ok(st) => match flat(util::catch(AssertUnwindSafe(|| de_details(&st, &shape, pl)))) {
+                Ok(d) => json!({"ev": "details", "i": i, "pl": pl, "table": jtable(&t), "streams": jstreams(&st), "dec": jtable(&d)}),
+                Err(e) => json!({"ev": "details", "i": i, "pl": pl, "table": jtable(&t), "streams": jstreams(&st), "dec": [], "failure": e}),
+            },
+            Err(e) => json!({"ev": "failure", "what": "serialize_contig_details", "table": jtable(&t), "detail": e}),
+        };
+        writeln!(out, "{}", ev)?;
+        // sample names
+        if i % 4 == 0 {
+            let k = [1usize, 2, 50, 127, 128, 129, 200][rng.gen_range(0..7)];
+            let list = gen_sample_names(&mut rng, k);
+            let ev = match flat(util::catch(AssertUnwindSafe(|| ser_samples(&list)))) {
+                Ok(buf) => match flat(util::catch(AssertUnwindSafe(|| de_samples(&buf)))) {
+                    Ok(d) => json!({"ev": "samples", "i": i, "list": Value::Array(list.iter().map(|x| jb(x)).collect()), "buf": jb(&buf), "dec": Value::Array(d.iter().map(|x| jb(x)).collect())}),
+                    Err(e) => json!({"ev": "samples", "i": i, "list": Value::Array(list.iter().map(|x| jb(x)).collect()), "buf": jb(&buf), "dec": [], "failure": e}),
+                },
+                Err(e) => json!({"ev": "failure", "what": "serialize_sample_names", "detail": e}),
+            };
+            writeln!(out, "{}", ev)?;
+        }
+    }
+    out.flush()?;
+    Ok(())
+}
+
+// ------------------------------------------------------------------------------------------
+// REPLAY of MC_Collection behaviours through real Archive files
+// ------------------------------------------------------------------------------------------
+fn replay_collection(a: &Args) -> Result<()> {
+    util::install_panic_hook();
+    let dir = a.get("dir")?.to_string();
+    std::fs::create_dir_all(&dir)?;
+    let f = std::fs::File::open(a.get("in")?)?;
+    let (mut n, mut steps, mut equal) = (0u64, 0u64, 0u64);
+    let mut fails: Vec<Value> = vec![];
+    let mut devs: Vec<Value> = vec![];
+    for line in std::io::BufReader::new(f).lines() {
+        let line = line?;
+        if line.trim().is_empty() {
+            continue;
+        }
+        let b: Value = serde_json::from_str(&line)?;
+        n += 1;
+        let pack = b["pack"].as_u64().unwrap() as usize;
+        let pl = b["pl"].as_u64().unwrap() as u32;
+        let ops = b["ops"].as_array().unwrap().clone();
+        let path = format!("{}/replay_{}_{}.agc", dir, std::process::id(), n);
+        let mut bytes_equal = true;
+        let mut trace: Vec<Value> = vec![json!({"ev": "start", "case": format!("replay{}", n), "mode": "file", "pack": pack, "pl": pl})];
+        let res = util::catch(AssertUnwindSafe(|| -> Result<Option<Value>> {
+            let mut w = CollectionV3::new();
+            let (seg, k) = split_pl(pl);
+            w.set_config(seg, k, None);
+            let mut stored: Option<Stored> = None;
+            let mut rd: Option<(Archive, CollectionV3)> = None;
+            let mut prev_dump = json!([]);
+            for (i, op) in ops.iter().enumerate() {
+                steps += 1;
+                match op["op"].as_str().unwrap() {
+                    "register" => {
+                        let (sn, cn) = (vb(&op["s"]), vb(&op["c"]));
+                        let new = w.register_sample_contig(&s(&sn), &s(&cn))?;
+                        let ns = w.get_no_samples();
+                        trace.push(json!({"ev": "register", "s": jb(&sn), "c": jb(&cn), "new": new, "nsamples": ns, "ncontigs": w.get_no_contigs(&s(&sn)).unwrap_or(0)}));
+                        if new != op["new"].as_bool().unwrap() || ns as u64 != op["nsamples"].as_u64().unwrap() {
+                            return Ok(Some(json!({"step": i, "op": "register", "real": {"new": new, "nsamples": ns}})));
+                        }
+                    }
+                    "place" => {
+                        for sm in op["cat"].as_array().unwrap() {
+                            for ct in sm["contigs"].as_array().unwrap() {
+                                let rows = vrows(&ct["segs"]);
+                                for (p, r) in rows.iter().enumerate().rev() {
+                                    w.add_segment_placed(&s(&vb(&sm["name"])), &s(&vb(&ct["name"])), p, r.g, r.id, r.rc, r.len)?;
+                                }
+                                trace.push(json!({"ev": "place", "s": sm["name"], "c": ct["name"], "rows": ct["segs"]}));
+                            }
+                        }
+                        let real = dump_cat(&w);
+                        if real != op["cat"] {
+                            return Ok(Some(json!({"step": i, "op": "place", "real": real})));
+                        }
+                    }
+                    "store_names" => {
+                        write_file(&mut w, &path, pack, None)?;
+                        let st = read_stored(&path)?;
+                        push_store_events(&st, true, &mut trace);
+                        if st.samples != vb(&op["bytes"]) {
+                            bytes_equal = false;
+                        }
+                        stored = Some(st);
+                    }
+                    "store_batch" => {
+                        let st = stored.as_ref().ok_or_else(|| anyhow!("store_batch before store_names"))?;
+                        let bi = op["b"].as_u64().unwrap() as usize;
+                        if bi >= st.names.len() {
+                            return Ok(Some(json!({"step": i, "op": "store_batch", "real": {"batches": st.names.len()}})));
+                        }
+                        if st.names[bi] != vb(&op["names"]) || st.det[bi] != streams5(&op["det"]) {
+                            bytes_equal = false;
+                        }
+                    }
+                    "open" => {
+                        let st = stored.as_ref().ok_or_else(|| anyhow!("open before store"))?;
+                        if st.names.len() != ops.iter().filter(|o| o["op"] == "store_batch").count() {
+                            return Ok(Some(json!({"step": i, "op": "open", "real": {"batches": st.names.len()}})));
+                        }
+                        let mut ar = Archive::new_reader();
+                        ar.open(&path)?;
+                        let mut c = CollectionV3::new();
+                        c.set_config(seg, k, None);
+                        c.prepare_for_decompression(&ar)?;
+                        c.load_batch_sample_names(&mut ar)?;
+                        let real = names_json(&c.get_samples_list(false));
+                        trace.push(json!({"ev": "open", "samples": real, "cat": dump_cat(&c)}));
+                        prev_dump = dump_cat(&c);
+                        if real != op["samples"] {
+                            return Ok(Some(json!({"step": i, "op": "open", "real": real})));
+                        }
+                        rd = Some((ar, c));
+                    }
+                    "load" => {
+                        let (ar, c) = rd.as_mut().ok_or_else(|| anyhow!("load before open"))?;
+                        let bi = op["b"].as_u64().unwrap() as usize;
+                        c.load_contig_batch(ar, bi)?;
+                        let real = dump_cat(c);
+                        trace.push(load_event(bi, &mut prev_dump, real.clone()));
+                        if real != op["cat"] {
+                            return Ok(Some(json!({"step": i, "op": "load", "b": bi, "real": real})));
+                        }
+                    }
+                    o => return Err(anyhow!("unknown op {}", o)),
+                }
+            }
+            Ok(None)
+        }));
+        let _ = std::fs::remove_file(&path);
+        match flat(res) {
+            Ok(None) => {}
+            Ok(Some(mut v)) => {
+                v["behaviour"] = b.clone();
+                fails.push(v);
+            }
+            Err(e) => fails.push(json!({"step": "exception", "detail": e, "behaviour": b})),
+        }
+        if bytes_equal {
+            equal += 1;
+        } else if devs.len() < 50 {
+            devs.push(Value::Array(trace));
+        }
+        if fails.len() >= 20 {
+            break;
+        }
+    }
+    println!("{}", json!({"behaviours": n, "steps": steps, "bytes_equal": equal, "fails": fails, "deviations": devs}));
+    Ok(())
+}
+
+fn bench(_a: &Args) -> Result<()> {
+    let mut rng = util::rng(1);
+    let c = gen_case(&mut rng, "bench", "file", 50, 120, 3, 5);
+    let mut evs = vec![];
+    let t = std::time::Instant::now();
+    run_case(&c, "/tmp", &mut evs);
+    let bytes: usize = evs.iter().map(|e| e.to_string().len()).sum();
+    println!("{}", json!({"samples": 120, "events": evs.len(), "json_bytes": bytes, "wall_ms": t.elapsed().as_millis() as u64,
+        "failure": evs.iter().find(|e| e["ev"] == "failure")}));
+    let _ = Context::context(Ok::<(), std::io::Error>(()), "");
+    Ok(())
 }
